@@ -80,23 +80,81 @@ def _register():
     impl.c08_quadratic = c08run.quadratic_witness
 
 
+STALL_S = 500      # a worker that delivers nothing for this long is killed (C-level loops do not see the in-process watchdog)
+
+
+def _worker(conn, fn, chunk):
+    for idx, args in chunk:
+        conn.send((idx, impl._run_one((fn, args, {}))))
+    conn.close()
+
+
 def pmap(fn, arglist, chunksize=8):
-    """impl.pmap, padded so that it always uses worker processes (memory limit, no state leaks into the parent)"""
+    """run impl.<fn>(*args) for every args in worker processes (fork), robustly: a worker that dies (memory limit, stack overflow
+    in C, kill) or stalls costs exactly the job it was running, which is returned as {"outcome": "worker-died" | "worker-stalled"};
+    the rest of its chunk is re-queued.  (multiprocessing.Pool.map never returns when a worker is killed.)"""
+    import multiprocessing as mp
+    from multiprocessing.connection import wait as conn_wait
     _register()
-    jobs = [(a, {}) for a in arglist]
-    n = len(jobs)
+    n = len(arglist)
     if n == 0:
         return []
-    pad = max(0, 8 - n)
-    out = impl.pmap(fn, jobs, chunksize=chunksize) if pad == 0 else _pmap_padded(fn, jobs, pad)
-    return out[:n]
-
-
-def _pmap_padded(fn, jobs, pad):
-    import multiprocessing as mp
     ctx = mp.get_context("fork")
-    with ctx.Pool(min(16, len(jobs))) as pool:
-        return pool.map(impl._run_one, [(fn, a, k) for a, k in jobs], chunksize=1)
+    results = [None] * n
+    queue = [[(i, arglist[i]) for i in range(k, min(k + chunksize, n))] for k in range(0, n, chunksize)]
+    running = {}      # conn -> [process, chunk, next position in chunk, time of last message]
+    nproc = min(16, os.cpu_count() or 4)
+    while queue or running:
+        while queue and len(running) < nproc:
+            chunk = queue.pop(0)
+            parent, child = ctx.Pipe(duplex=False)
+            pr = ctx.Process(target=_worker, args=(child, fn, chunk), daemon=True)
+            pr.start()
+            child.close()
+            running[parent] = [pr, chunk, 0, time.time()]
+        ready = conn_wait(list(running), timeout=5)
+        now = time.time()
+        for conn in ready:
+            st = running[conn]
+            try:
+                idx, res = conn.recv()
+                results[idx] = res
+                st[2] += 1
+                st[3] = now
+                continue
+            except (EOFError, OSError):
+                pass
+            pr, chunk, pos, _ = running.pop(conn)
+            pr.join(5)
+            conn.close()
+            if pos < len(chunk):        # died while running chunk[pos]
+                results[chunk[pos][0]] = {"outcome": "worker-died", "exitcode": pr.exitcode}
+                if pos + 1 < len(chunk):
+                    queue.append(chunk[pos + 1:])
+        for conn in [c for c, st in running.items() if now - st[3] > STALL_S]:
+            pr, chunk, pos, _ = running.pop(conn)
+            pr.kill()
+            pr.join(5)
+            conn.close()
+            if pos < len(chunk):
+                results[chunk[pos][0]] = {"outcome": "worker-stalled", "after_s": STALL_S}
+                if pos + 1 < len(chunk):
+                    queue.append(chunk[pos + 1:])
+    return results
+
+
+def dead_to_verdict(r, case):
+    """a job that took its worker down is a finding about the text, not a harness error"""
+    if not isinstance(r, dict) or r.get("outcome") not in ("worker-died", "worker-stalled"):
+        return r
+    died = r["outcome"] == "worker-died"
+    sig = "crash:worker-died" if died else "hang"
+    what = (f"assembling this text killed the worker process (exit code {r.get('exitcode')}: memory limit, stack overflow or abort inside the interpreter)"
+            if died else f"assembling did not come back within {STALL_S} s and did not react to the watchdog signal (a loop inside C code)")
+    jc = c08run.jsonable(case)
+    return {"p1": "crash" if died else "hang", "ood": None, "verdicts": [{"signature": sig, "what": what, "detail": r}], "diag_ids": [], "exits": [],
+            "stream": case.get("stream", "?"), "index": case.get("n", -1), "tags": case.get("tags", []), "hit": [], "size": sum(len(t) for _, t in case["files"]),
+            "nlines": 3, "hash": "dead:" + str(hash(json.dumps(jc["files"]))), "case": jc}
 
 
 # ---------------------------------------------------------------------------------------------
@@ -367,6 +425,8 @@ def confirm_hangs(results, watchdog):
             r = results[i]
             if "p1" not in a or any(is_hang(v) for v in a.get("verdicts", [])):
                 confirmed += 1
+                if isinstance(a, dict) and a.get("outcome") in ("worker-died", "worker-stalled"):
+                    results[i] = dead_to_verdict(a, results[i]["case"])
                 continue
             slow += 1
             keep = {k: r[k] for k in ("stream", "index", "tags", "hit", "size", "nlines", "hash", "case") if k in r}
@@ -388,6 +448,11 @@ def explore_texts(rep, seed, total, watchdog, label="explore"):
     random.Random(seed).shuffle(jobs)      # spread the slow streams over the pool
     t0 = time.time()
     results = pmap("c08_judge_job", jobs, chunksize=8)
+    for k, (r, job) in enumerate(zip(results, jobs)):
+        if isinstance(r, dict) and r.get("outcome") in ("worker-died", "worker-stalled"):
+            case = c08gen.Gen(random.Random(f"{job[1]}:{job[0]}:{job[2]}")).case(job[0])
+            case["n"] = job[2]
+            results[k] = dead_to_verdict(r, case)
     hang_info = confirm_hangs(results, watchdog)
     info = {"texts": len(jobs), "wall_s": round(time.time() - t0, 1), **hang_info}
     return results, info
@@ -492,6 +557,7 @@ def run_corpus(rep, watchdog):
             c["expect"] = d["expect"]
         cases.append(c)
     res = pmap("c08_judge", [(c, watchdog) for c in cases], chunksize=1)
+    res = [dead_to_verdict(r, c) for r, c in zip(res, cases)]
     out = []
     for d, c, r in zip(corpus, cases, res):
         if "p1" in r:
